@@ -103,7 +103,16 @@ func (this *LedgerStoreImp) VerifPrefillHeaderIndex(n uint32) {
 	defer this.lock.Unlock()
 	var dummy common.Uint256
 	dummy[0] = 0xff
-	for i := uint32(len(this.headerIndex)); i < n; i++ {
-		this.headerIndex[i] = dummy
+	if uint32(len(this.headerIndex)) >= n {
+		return
 	}
+	// one allocation of the final size: growing a map entry by entry to 20 million entries takes minutes
+	index := make(map[uint32]common.Uint256, n)
+	for k, v := range this.headerIndex {
+		index[k] = v
+	}
+	for i := uint32(len(this.headerIndex)); i < n; i++ {
+		index[i] = dummy
+	}
+	this.headerIndex = index
 }
